@@ -72,6 +72,14 @@ impl WorkerState {
     }
 
     pub(crate) fn remaining_time(&self) -> Option<Duration> {
+        #[cfg(feature = "verif")]
+        if crate::verif::sim_clock_active() {
+            // Same computation as below, reading the simulated clock
+            return self
+                .configuration
+                .time_limit
+                .map(|limit| limit - (crate::verif::now() - self.start_time));
+        }
         if let Some(limit) = self.configuration.time_limit {
             let life_time = Instant::now() - self.start_time;
             Some(limit - life_time)
@@ -222,6 +230,12 @@ impl WorkerStateRef {
         let allocator =
             ResourceAllocator::new(&configuration.resources, &resource_map, &resource_label_map);
         let now = Instant::now();
+        #[cfg(feature = "verif")]
+        let now = if crate::verif::sim_clock_active() {
+            crate::verif::now()
+        } else {
+            now
+        };
 
         let state = Self::wrap(WorkerState {
             comm,
